@@ -51,6 +51,9 @@ def mutable_ids(el):
             out.append(id(v))
             for x in (v.values() if isinstance(v, dict) else v):
                 walk(x)
+        elif isinstance(v, tuple):
+            for x in v:   # immutable itself, but it may hold mutable containers
+                walk(x)
     for k in el.data:
         walk(el.data[k])
     return out
